@@ -158,7 +158,7 @@ def run (cmd rest : String) : Option String :=
       | some nr =>
         if nr.parent < 0 then pure (showWGraph g)
         else if be == "ig" then pure (showWGraph (rerootGraphIg g (rootPath t r)))
-        else pure (showWGraph (rerootGraphNx g r))
+        else pure (showWGraph (rerootGraphNxAW refNxWalkSpec g r))
     | _ => none
   | "rerootok" => do
     -- "<r>" | table before | table after     → Lean-side checker on the implementation's output (`rerootOKB`)
